@@ -305,7 +305,7 @@ def make_cache(ctx, st, policy='least-recently-stored', statistics=None, nested=
     cache = ctx.new_obj('diskcache.core.Cache', fields)
     if nested:
         # the calling thread already owns an open transaction on this object
-        fields['_txn_id'] = SV('int', tid)
+        cache.fields['_txn_id'] = SV('int', tid)
         st.world['txn.active'] = True
         st.world['txn.immediate'] = True
         st.world['txn.snapshot'] = T.snapshot()
